@@ -316,7 +316,11 @@ class Scenario:
                 ["stash", "list"], ["stash", "show"], ["branch", "-a"], ["rev-parse", "HEAD"], ["ls-files"]]
         if f:
             cmds.append(["blame", "--", f])
-        for c in self.vrng.sample(cmds, self.vrng.choice([1, 2, 3])):
+        chosen = self.vrng.sample(cmds, self.vrng.choice([1, 2, 3]))
+        if self.vrng.random() < 0.6:
+            # read-only for the user, but git-ai takes a (pre-commit style) checkpoint around them
+            chosen.append(self.vrng.choice([["stash", "list"], ["stash", "show"], ["commit", "--dry-run"], ["stash", "list", "--stat"]]))
+        for c in chosen:
             self.w.git(*c, cwd=repo, tick=False)
             self.stats["readonly_cmds"] += 1
 
